@@ -215,8 +215,11 @@ func vsReadWorld(s *verifsim.Sim, dir string) {
 			}
 			o := vsCheckOpts(rng, b.sq.ODSW)
 			o.ErrOK = faulty
-			bad := b.sq.CheckAccessor(ctx, acc, o)
-			_ = acc.Close()
+			var bad []string
+			func() {
+				defer acc.Close() // also when the code under test panics: a leaked accessor's finalizer would fire outside the bubble
+				bad = b.sq.CheckAccessor(ctx, acc, o)
+			}()
 			if len(bad) > 0 {
 				s.Violate("c05-read-path-differs", vsFirstWord(bad[0]), "height %d (ODS width %d, %d of %d shares filled, q4 on disk=%v) via %s: %d discrepancies, first: %s; history: %s",
 					b.h, b.sq.ODSW, b.sq.Filled, b.sq.ODSW*b.sq.ODSW, b.q4, via, len(bad), bad[0], hist)
